@@ -25,7 +25,7 @@ Runs == ndJsonDeserialize("traces.ndjson")
 VARIABLES t, pos, l2ok
 tvars == <<t, pos, l2ok, prog, data, idx, pc, ip, loc, started, completed, crashed, faults, hist, base, sched>>
 
-StartByName(nm) == CHOOSE s \in {SEmpty, STrimmed, SShared, SOther, SDamSame, SDamShort, SDamLong} : s.name = nm
+StartByName(nm) == CHOOSE s \in {SEmpty, STrimmed, SShared, SOther, SBoth, SDamSame, SDamShort, SDamLong} : s.name = nm
 ProgOf(r) == [a \in MCActors |-> r.prog[a]]
 
 \* ---------------------------------------------------------------- L2 replay
